@@ -292,6 +292,19 @@ def check_scrypt(ctx, P):
             for x in walk(e):
                 if x[0] == "call" and x[1].endswith("usize>::checked_mul"):
                     prods.append(tuple(sorted(pred.canon(a, fn) for a in x[2])))
+    # ... or calls (dominating the constructor) to a private helper that is exactly `checked_mul(a, b)` with a panicking None
+    for c in fn.calls():
+        if c.local and len(c.args) == 2 and fn.dominates(c.bb, b):
+            hf = P.fn_opt(c.name())
+            if hf is None or hf.argc != 2:
+                continue
+            cm = [k for k in hf.calls() if k.name().endswith("usize>::checked_mul")]
+            if len(cm) == 1 and sorted(pred.canon(hf.expr(a), hf) for a in cm[0].args) == ["arg1", "arg2"]:
+                ret = pred.short(hf.local_expr(0), hf)
+                diverging = any(hf.diverges(bb_) for bb_ in hf.reachable())
+                if "checked_mul(" in ret and "Some" in ret and diverging and not [k for k in hf.calls() if k.local]:
+                    prods.append(tuple(sorted(pred.canon(fn.expr(a), fn) for a in c.args)))
+
     def has(sub):
         return any(all(any(s in part for part in p) for s in sub) for p in prods)
     ok = len(prods) >= 3 and has(["arg2", "128"]) and any("Shl" in "".join(p) or "arg1" in "".join(p) for p in prods) and any("arg3" in "".join(p) for p in prods)
